@@ -90,8 +90,10 @@ def astigmatic_foci(P, D, surfaces, zv, n_abs, obj_infinite):
     obj_infinite : True -> incoming pencil collimated (1/t = 1/s = 0); False -> the pencil diverges
                from P[0] (object point).
 
-    Returns (dz_t, dz_s, info): z of the tangential / sagittal focus minus z of the chief ray's point on
-    the image surface (K-th record), arrays (N,); info['cosI'] etc. for diagnostics.
+    Returns (dz_t, dz_s, info): z of the tangential / sagittal focus minus z of the chief ray's OWN point on
+    the image surface (K-th record, whatever the shape or tilt of that surface), arrays (N,).  This is how
+    the library reports field curvature: it intersects two parabasal rays and returns t * N, the z distance from
+    the recorded image-surface point of the (parabasal = chief, to first order) ray to the intersection.
     """
     P = np.asarray(P, dtype=float)
     D = np.asarray(D, dtype=float)
@@ -108,6 +110,19 @@ def astigmatic_foci(P, D, surfaces, zv, n_abs, obj_infinite):
     max_off = 0.0
     for k in range(1, K + 1):
         s = surfaces[k - 1]
+        same_medium = s.get('medium') != 'mirror' and n_abs[k] == n_abs[k - 1]
+        if any(s.get(q) for q in ('rx', 'ry', 'dx', 'dy')):
+            # a tilted / decentred surface is only understood when it does nothing to the pencil (a dummy or image
+            # surface between equal media): the foci are then simply carried along the ray
+            if not same_medium:
+                raise ValueError('Coddington oracle: tilted/decentred surface with power is not supported')
+        if same_medium:
+            if k < K:
+                with np.errstate(all='ignore'):
+                    d = np.linalg.norm(P[k + 1] - P[k], axis=1)
+                    inv_t = inv_t / (1.0 - sigma * d * inv_t)
+                    inv_s = inv_s / (1.0 - sigma * d * inv_s)
+            continue
         pl = P[k] - np.array([0.0, 0.0, zv[k - 1]])
         max_off = max(max_off, float(np.max(np.abs(pl[:, 0]))))
         y = pl[:, 1]
